@@ -8,14 +8,16 @@ from pt_common import *
 PROP = 'C05'
 O_WRONLY, O_RDWR, O_CREAT, O_EXCL, O_TRUNC, O_APPEND, O_NONBLOCK, O_DIRECTORY, O_NOFOLLOW = 1, 2, 0o100, 0o200, 0o1000, 0o2000, 0o4000, 0o200000, 0o400000
 UIDS = [0, 0, 1000, 1001]; GIDS = [0, 1000, 1001]
+# open-flag bits beyond the access mode / O_TRUNC / O_APPEND / O_EXCL: O_NOATIME, O_SYNC, O_NOFOLLOW, O_NOCTTY, O_CLOEXEC, O_LARGEFILE, O_DSYNC
+EXTRA_OPEN_BITS = [0, 0o1000000, 0o4010000, 0o400000, 0o400, 0o2000000, 0o100000, 0o10000]
 
 CONFIGS = [
     {'xattr': True},
     {'xattr': True, 'writeback': True, 'cache': 'always'},
-    {'xattr': True, 'no_open': True, 'cache': 'always'},
-    {'xattr': True, 'killpriv_v2': True},
+    {'xattr': True, 'no_open': True, 'cache': 'always', 'no_direct_io': True},
+    {'xattr': True, 'killpriv_v2': True, 'no_direct_io': True},
     {'xattr': True, 'no_opendir': True, 'cache': 'never'},
-    {'xattr': False, 'use_host_ino': True, 'cache': 'metadata', 'killpriv_v2': True, 'writeback': True},
+    {'xattr': False, 'use_host_ino': True, 'cache': 'metadata', 'killpriv_v2': True, 'writeback': True, 'no_direct_io': True},
     {'xattr': True, 'inode_file_handles': True, 'killpriv_v2': True},
 ]
 
@@ -29,7 +31,7 @@ def all_configs():
                         for cache in ('never', 'metadata', 'auto', 'always'):
                             for xa in (False, True):
                                 out.append({'xattr': xa, 'no_open': no_open, 'no_opendir': no_opendir, 'inode_file_handles': ifh,
-                                            'use_host_ino': uhi, 'writeback': wb, 'cache': cache, 'killpriv_v2': (len(out) % 2 == 0)})
+                                            'use_host_ino': uhi, 'writeback': wb, 'cache': cache, 'killpriv_v2': (len(out) % 2 == 0), 'no_direct_io': (len(out) % 3 == 0)})
     return out
 
 def gen_tree(rng):
@@ -76,6 +78,7 @@ def gen_history(rng, n_ops, k=0, wb=False):
         cell = (k * 6 + j) % (len(targets) * len(flagsets))
         (par, name), fl = targets[cell % len(targets)], flagsets[cell // len(targets)]
         u, g = (0, 0) if j % 2 == 0 else (1000, 1000)
+        fl |= EXTRA_OPEN_BITS[(k + j) % len(EXTRA_OPEN_BITS)]
         ops.append({'op': 'create', 'p': par, 'name': name, 'mode': 0o644, 'umask': 0, 'flags': fl, 'fuse_flags': (k + j) % 2, 'uid': u, 'gid': g})
         ci = ni; ch = nh; ni += 1; nh += 1; hflags.append(fl)
         ops.append({'op': 'getattr', 'i': ci, 'h': None})
@@ -126,6 +129,7 @@ def gen_history(rng, n_ops, k=0, wb=False):
         elif r < 0.54: ops.append({'op': 'rename', 'p': islot(), 'name': nm(), 'p2': islot(), 'name2': nm(), 'flags': rng.choice([0, 0, 0, 1, 2, 3, 8])})
         elif r < 0.62:
             fl = rng.choice([0, O_WRONLY, O_RDWR, O_RDWR | O_TRUNC, O_WRONLY | O_APPEND, O_WRONLY | O_TRUNC, O_DIRECTORY, O_RDWR | O_NONBLOCK])
+            fl |= rng.choice(EXTRA_OPEN_BITS)
             ops.append({'op': 'open', 'i': islot(), 'flags': fl | O_NONBLOCK, 'fuse_flags': rng.choice([0, 1])}); nh += 1; hflags.append(fl | O_NONBLOCK)
         elif r < 0.64:
             ops.append({'op': 'opendir', 'i': islot(), 'flags': 0}); nh += 1; hflags.append(O_DIRECTORY)
@@ -170,6 +174,18 @@ def gen_history(rng, n_ops, k=0, wb=False):
         elif r < 0.985: ops.append({'op': 'statfs', 'i': islot()})
         elif r < 0.99: ops.append({'op': 'flush', 'i': islot(), 'h': hslot()})
         else: ops.append({'op': 'statfs', 'i': islot()})
+    # twins of open/release/fsync on directories, and flush: opendir / fsyncdir / releasedir on the root and a subdirectory,
+    # flush + release of a file handle (fsyncdir is compared with the direct calls only; it is not in the Coq model)
+    for dslot in (0, 5):
+        ops.append({'op': 'opendir', 'i': dslot, 'flags': 0}); dh = nh; nh += 1; hflags.append(O_DIRECTORY)
+        ops.append({'op': 'fsyncdir', 'i': dslot, 'h': dh, 'datasync': k % 2})
+        ops.append({'op': 'fsync', 'i': dslot, 'h': dh})
+        ops.append({'op': 'getattr', 'i': dslot, 'h': dh})
+        ops.append({'op': 'releasedir', 'i': dslot, 'h': dh})
+        ops.append({'op': 'releasedir', 'i': dslot, 'h': dh})
+    ops.append({'op': 'open', 'i': 1, 'flags': O_RDWR, 'fuse_flags': 0}); fh = nh; nh += 1; hflags.append(O_RDWR)
+    ops.append({'op': 'flush', 'i': 1, 'h': fh}); ops.append({'op': 'flush', 'i': 2, 'h': fh})
+    ops.append({'op': 'release', 'i': 2, 'h': fh}); ops.append({'op': 'release', 'i': 1, 'h': fh}); ops.append({'op': 'flush', 'i': 1, 'h': fh})
     # the per-request flags word of READ/WRITE (last, because under writeback it runs into the known finding):
     # {handle opened with O_APPEND, without} x request flags {as opened, O_APPEND toggled, toggled again, plus O_NONBLOCK /
     # O_DIRECT toggles} x offsets {0, middle, EOF, beyond EOF} x two consecutive requests with flipping flags (the recorded
@@ -207,6 +223,10 @@ def canon_reply(o, kv):
     if o['op'] == 'listxattr' and 'data' in d: d['data'] = canon_xlist(d['data']).hex()
     if o['op'] == 'statfs': d = {'errno': d['errno']}
     return d
+
+# FileSystem methods PassthroughFs implements but Vfs does not route (answered ENOSYS by the trait default): reported to the
+# lead as an observation for C07; not part of C05
+VFS_UNROUTED = ('lseek', 'batch_forget')
 
 def parse_ts(v):
     a, b = v.split('.'); return (int(a), int(b))
@@ -265,7 +285,7 @@ def run_check(tier, seed):
         for k in range(n_hist):
             hrng = random.Random(rng.getrandbits(64))
             tree, R = gen_tree(hrng)
-            hist.append({'k': k, 'tree': tree, 'R': R, 'ops': gen_history(hrng, 60, k, bool(effective_cfg(cfgs[k % len(cfgs)]).get('writeback'))), 'cfg': cfgs[k % len(cfgs)],
+            hist.append({'k': k, 'tree': tree, 'R': R, 'ops': gen_history(hrng, 45 if quick else 60, k, bool(effective_cfg(cfgs[k % len(cfgs)]).get('writeback'))), 'cfg': cfgs[k % len(cfgs)],
                          'export': os.path.join(base, 'h%d' % k, 'export'), 'shadow': os.path.join(base, 'h%d' % k, 'shadow')})
         runs = {}
         for mode, key in (('pt', 'export'), ('shadow', 'shadow')):
@@ -282,6 +302,36 @@ def run_check(tier, seed):
             if rc != 0 or len(hs) != len(hist):
                 broken.append({'kind': 'harness-run', 'what': mode + ' run', 'rc': rc, 'log': out[-1500:]})
             runs[mode] = hs
+        # the same PassthroughFs behind a Vfs (do_import=false, mounted at "/"): same replies as standalone, for the histories
+        # of the default configuration; requests naming an inode/handle the client never received are answered by the Vfs itself
+        vh = [hh for hh in hist if hh['k'] % len(cfgs) == 0]
+        lines = []
+        for hh in vh:
+            hh['vexport'] = os.path.join(os.path.dirname(hh['export']), 'vexport')
+            build_real(hh['tree'], hh['R'], hh['vexport'])
+            c = dict(hh['cfg']); c.pop('do_import', None)
+            lines.append('H %d vfs %s %s' % (hh['k'], hh['vexport'], cfg_line(dict(c, digest=1))))
+            lines += [op_line(o) for o in hh['ops']] + ['E']
+        rc, out = run_ptfs(bindir, lines, 'c05-vfs', timeout=600)
+        vs = parse_output(out)
+        if rc != 0 or len(vs) != len(vh): broken.append({'kind': 'harness-run', 'what': 'vfs run', 'rc': rc, 'log': out[-1500:]})
+        elif len(runs.get('pt', [])) == len(hist):
+            for hh, vres in zip(vh, vs):
+                a = runs['pt'][hh['k']]
+                if not vres['ok'] or len(vres['ops']) != len(hh['ops']) or len(a['ops']) != len(hh['ops']):
+                    broken.append({'kind': 'harness-run', 'what': 'vfs history %d' % hh['k'], 'log': vres['msg']}); continue
+                ivalid = [True]; hvalid = []
+                for j, (o, ra, rv) in enumerate(zip(hh['ops'], a['ops'], vres['ops'])):
+                    okref = all(not isinstance(o[x], tuple) and ivalid[o[x]] for x in ('p', 'p2', 'i') if x in o) and \
+                            (o.get('h') is None or (not isinstance(o['h'], tuple) and hvalid[o['h']]))
+                    evals += 1
+                    if okref and o['op'] not in VFS_UNROUTED and (canon_reply(o, ra['r']) != canon_reply(o, rv['r']) or ra['tree'] != rv['tree']):
+                        findings.append({'what': 'request %d (%s) is answered differently behind a Vfs: standalone %s | behind Vfs %s' % (j, op_line(o), ra['raw'], rv['raw']),
+                                         'input': {'seed': seed, 'history': hh['k'], 'cfg': hh['cfg'], 'ops': [op_line(x) for x in hh['ops']]},
+                                         'sig': {'kind': 'vfs-vs-standalone', 'op': o['op']}}); break
+                    good = errno_of(ra['r']) == 0 and errno_of(rv['r']) == 0
+                    if o['op'] in ('lookup', 'mkdir', 'mknod', 'create', 'symlink', 'link'): ivalid.append(good)
+                    if o['op'] in ('open', 'opendir', 'create'): hvalid.append(good and ra['r'].get('handle') == '1')
         exprs = []; exmap = []; time_cases = []
         if 'pt' in runs and 'shadow' in runs and len(runs['pt']) == len(hist) and len(runs['shadow']) == len(hist):
             for hh, a, b in zip(hist, runs['pt'], runs['shadow']):
